@@ -293,10 +293,40 @@ def validate(wd, name, trace):
     return info
 
 
+CLEANUP_INV = ["TypeOK", "ListedPresent", "VersionsPresent", "WritesKept", "CountsCover"]
+CLEANUP_NEG = (("ScanSkipsLive", "ListedPresent", "seed C08-3"), ("ScanAddsBeforeRms", "ListedPresent", "seed C04-3"),
+               ("ReplaySkipsListing", "WritesKept", "seed C08-2"), ("UnrefIgnoresCount", "VersionsPresent", "a reader's files renamed under it"))
+
+
+def design_model(out, wd):
+    """Cleanup.tla: memtable thread, compaction, readers, roll-over, verifier, crash and reopen as separate processes; every
+    interleaving within the bounds; each deviation must break the invariant it is meant to."""
+    files = dict(LogFiles={"l1", "l2"}, OutFiles={"o1"}, MaxFrags=3, MaxHeld=1)
+    bounds = dict(files, MaxEdits=3, MaxCrash=1) if vlib.tier() == "quick" else dict(files, MaxEdits=4, MaxCrash=2, MaxHeld=2)
+    r = run_tlc("Cleanup", cfg_text(constants=dict(bounds, CrossRecreate=False, Dev=set()), invariants=CLEANUP_INV), wd, "cleanup_mc", workers=8, timeout=6000, heap="24g")
+    if not r.ok():
+        raise ToolError(f"TLC Cleanup: violated={r.violated} error={r.error} ({r.out})")
+    out.add_tlc("Cleanup_design_model", r, {k: (sorted(v) if isinstance(v, set) else v) for k, v in bounds.items()})
+    small = dict(files, MaxEdits=3, MaxCrash=1)
+    controls = []
+    for dev, want, what in CLEANUP_NEG:
+        rn = run_tlc("Cleanup", cfg_text(constants=dict(small, CrossRecreate=False, Dev={dev}), invariants=CLEANUP_INV), wd, f"cleanup_neg_{dev}", workers=4, timeout=900)
+        if rn.violated != want:
+            raise ToolError(f"negative control failed: Cleanup.tla with {dev} should violate {want}, got {rn.violated} / {rn.error}")
+        controls.append(f"{dev} -> {want} ({what})")
+    # conditional observation, not a finding: were a later compaction able to re-create a file an earlier one removed, the rename
+    # of explicit_unref (not atomic with the count) could take the re-listed file out of sst/.  No history of the real store does that.
+    rc = run_tlc("Cleanup", cfg_text(constants=dict(small, CrossRecreate=True, Dev=set()), invariants=CLEANUP_INV), wd, "cleanup_cross", workers=4, timeout=900)
+    out.extra["cleanup_negative_controls"] = controls
+    out.extra["cleanup_cross_recreate"] = f"CrossRecreate=TRUE violates {rc.violated} in the model (conditional observation, DESIGN.md 10.20; not reachable in the real store as far as could be established)"
+
+
 def check_prop(prop, replay=None):
     out = Outcome(prop)
     wd = vlib.workdir()
     vlib.build_harness()
+    if prop == "C08" and not replay:
+        design_model(out, wd)
     rng = random.Random(vlib.seed() * 977 + (2 if prop == "C02" else 8))
     if replay:
         docs = [json.load(open(replay))["doc"]]
